@@ -34,6 +34,7 @@ type Loc struct {
 	Comp string // component name (field comps are "H:..." indexed by Ref; element comps "E:..." indexed by Ref then Idx; globals "G:..." not indexed)
 	Ref  Term
 	Idx  Term // "" unless element location
+	Off  Term // element locations: offset of the slice inside its backing array ("" or "0" = none)
 	T    types.Type
 }
 
